@@ -219,6 +219,7 @@ def _work(a):
     ctx = _CTX
     I = absint.Interp(ctx.p)
     I.memo = True
+    I.unroll = 16          # small constant-trip loops over the address bits are evaluated iteration by iteration
     word = ctx.content[a]
     per_word = {}
     stats = [0]
